@@ -7,6 +7,7 @@ package dastard
 import (
 	"fmt"
 	"math/rand"
+	"os"
 	"sync"
 	"testing"
 	"time"
@@ -276,9 +277,14 @@ func abRun(id int, sc *abScen) {
 		if !ok {
 			break
 		}
-		prods[0].mu.Lock()
-		t := prods[0].next
-		prods[0].mu.Unlock()
+		t := len(ticks)
+		if !abNoSync {
+			// tick attribution takes the producer's mutex, which also orders this goroutine with the reader: switched off
+			// for race-detector workloads so that the harness adds no synchronisation of its own
+			prods[0].mu.Lock()
+			t = prods[0].next
+			prods[0].mu.Unlock()
+		}
 		blocks = append(blocks, blk{t, b})
 		if b.err != nil {
 			break
@@ -342,6 +348,8 @@ func abRun(id int, sc *abScen) {
 	}
 	vEmit(vmap{"ev": "End", "flushed": flushed, "L": L, "left": left})
 }
+
+var abNoSync = os.Getenv("VERIF_NOSYNC") != ""
 
 func abGcd(a, b int) int {
 	for b != 0 {
